@@ -21,8 +21,8 @@ import os
 import re
 import signal
 import socket
-import stat
-import sys
+import stat        # noqa: F401  (everything is imported before platstub patches sys.platform / os.name)
+import sys         # noqa: F401
 import traceback
 
 from vlib import harness
@@ -32,14 +32,18 @@ LEVEL = "fault_enumeration"
 TECHNIQUE = ("runtime monitoring of the real foreign platform layers over a stub native layer: record-layout "
              "oracle from the C builders + errno/winerror fault enumeration at every native call index with an "
              "error-translation-contract oracle")
-RULE = ("one case = (platform, Process method, pid|pid 0, fault plan, process state) or (platform, method/system "
-        "function, record variant) or (platform, net_if_addrs rows) or (platform, documented name). Fault plans "
-        "enumerate every per-process native call / procfs access index i the platform method issues (call stack "
-        "decides) x errno in {ESRCH, ENOENT, EPERM, EACCES, EIO, EINVAL} (+ winerror 5, 1314, 299, 87 on Windows) x "
-        "{only call i fails, all calls from i fail} x state {live, gone (probes say no such pid), zombie (probes "
-        "say zombie)}; thorough adds fail-pairs, ENODEV/EBUSY/ENOMEM and three record variants. non-trivial = the "
-        "planned fault fired (stub call log proves it) or a record/name/address comparison was made; distinct by "
-        "case descriptor")
+RULE = ("one case = (platform, operation, pid|pid 0, fault plan, process state) or (platform, operation/system "
+        "function, record variant) or (platform, net_if_addrs rows) or (platform, documented name). Operations = the "
+        "public psutil.Process methods of that platform plus every public method of the layer's own Process class "
+        "called directly (found by dir()). Fault plans enumerate every per-process native call / procfs access / "
+        "waitpid index i the platform method issues (call stack decides) x errno in {ESRCH, ENOENT, EPERM, EACCES, "
+        "EIO, EINVAL, ENODEV, EBUSY, ENOMEM} (+ winerror 5, 1314, 299, 87 on Windows) x {only call i fails, all calls "
+        "from i fail} x state {live, gone (probes say no such pid from the moment the fault fires), zombie (probes "
+        "say zombie)}, all ordered fail-pairs (i<j, errno a != b), one 'pid already gone, everything ESRCH' run per "
+        "operation, and the same on PID 0 with 0 listed / not listed in pids(); thorough adds every errno of "
+        "errno.errorcode, winerror 6/998/1/2 and three more record variants. The seed only moves the pid and the "
+        "record values. non-trivial = the planned fault fired (stub call log proves it) or a record / name / address "
+        "comparison was made; distinct by case descriptor")
 ASSUMPTIONS = [
     "only the Python halves of the platform layers execute; the native records are the stub's (slot order "
     "transcribed from Py_BuildValue in psutil/arch/*, _psutil_sunos.c, _psutil_aix.c, arch/windows/*.c)",
@@ -52,9 +56,13 @@ ASSUMPTIONS = [
     "oneshot record on BSD/macOS; pid still exists on Solaris/AIX); Windows has no zombie state",
     "ENOENT from a native call is 'no such process'-class only where the layer says so (procfs layers sunos/aix, "
     "NetBSD exe): elsewhere NoSuchProcess or the unchanged FileNotFoundError are both accepted, AccessDenied never",
-    "fail-one accepts NSP/AD or a well-formed value (documented fall-backs); fail-all is crisp; deliberate "
-    "method-local handlers are accepted: NetBSD cmdline EINVAL -> [], Windows ERROR_PARTIAL_COPY retried 33x on a "
-    "virtual sleep then AccessDenied, status() -> 'zombie' value on a zombie, wait() -> TimeoutExpired/None",
+    "fail-all is crisp (must be NSP/AD, or the unchanged OSError for unrelated errnos); fail-one additionally "
+    "accepts a well-formed value for permission errors and procfs-ENOENT (documented fall-backs: Windows "
+    "proc_info, SunOS uids()/gids(), SunOS/AIX 'link not resolvable' handlers) and for fail-pairs; for ESRCH and "
+    "unrelated errnos a value is accepted only from the handlers the code documents: SunOS exe() readlink -> "
+    "guess, NetBSD cmdline EINVAL -> [], the front end's exe() guess, status() -> 'zombie' on a zombie, "
+    "wait() -> None/TimeoutExpired; Windows ERROR_PARTIAL_COPY may become AccessDenied only after the 33 "
+    "retries on the virtual sleep",
     "PID-0 rule (BSD, Solaris): with 0 in pids() an EIO/EINVAL(/ENOENT on BSD) must come out as AccessDenied; "
     "without 0 in pids() unchanged",
     "Windows errors as CPython raises them: winerror 5 -> errno EACCES (PermissionError); 1314, 299, 87 -> errno "
@@ -451,7 +459,7 @@ def judge_fault(platform, case, r, clean):
         want = {a for a in allowed if isinstance(a, tuple)}
         want = {(a[0], a[1], a[2] if platform == "windows" else None) for a in want}
         if got not in want:
-            if "NSP" in allowed and classes <= {"nsp"}:
+            if "NSP" in allowed and classes <= {"nsp", "enoent"} and not want:
                 v("esrch_not_translated")
             elif "AD" in allowed and classes <= {"perm"}:
                 v("perm_not_translated")
@@ -1348,7 +1356,6 @@ def run_shard(shard):
     if kind == "cases":
         platform = platform or shard["cases"][0]["platform"]
     env = setup(platform)
-    w = env["w"]
     tier = shard.get("tier", "quick")
     seed = int(shard.get("seed", 0) or 0)
     pid = PID + 13 * (seed % 1000)          # the seed only moves the pid and the record values
